@@ -830,10 +830,11 @@ theorem applyRow_pulse (r : Gen.Admix.FnRow) (f : List ℚ) (grids : List (Array
   obtain ⟨⟨⟨⟨⟨_, hgo⟩, hng⟩, htg⟩, _⟩, _, _⟩ := hw
   simp only [shapesOk, hp, if_true, Bool.and_eq_true, beq_iff_eq] at hs
   have hgl : grids.length = r.d := hs.1.1.1.1.2
+  have hfl : f.length = r.nf := hs.1.1.1.1.1.1
   unfold applyRow pulse
   have hs' : shapesOk r f grids P = true := by simp only [shapesOk, hp, if_true, Bool.and_eq_true, beq_iff_eq]; exact hs
   rw [hs', hg, hp, hc, hng, htg, hgo, ← hgl, map_getD_range]
-  simp
+  simp [hfl]
 
 /-- a constructor row that is wired as intended computes the intended `newPop` on the first d grids, new axis on grid d -/
 theorem applyRow_newPop (r : Gen.Admix.FnRow) (f : List ℚ) (grids : List (Array ℚ)) (P : Dens)
